@@ -1,15 +1,43 @@
 import Driver.Util
 import Driver.Order
+import Driver.OrderObj
+import Driver.Journal
+import Driver.Codec
+import Driver.Container
+import Driver.Session
+import Driver.Schema
+import Driver.Sched
 
-/-- One request line ↦ one reply line.  Families keep their state in `DriverState`. -/
+/-!
+Line-protocol driver of the executable models: one request line ↦ one reply line.
+Commands are `<family>.<cmd> args…`; every family keeps its own state.
+`sync` flushes stdout (used by interactive conversations).
+-/
+
 structure DriverState where
-  dummy : Unit := ()
+  journal : Driver.Journal.St := {}
+  codec : Driver.Codec.St := {}
+  cont : Driver.Container.St := {}
+  sess : Driver.Session.St := {}
+  schema : Driver.Schema.St := {}
+  sched : Driver.Sched.St := {}
+  ordobj : Driver.OrderObj.St := {}
 
 def step (st : DriverState) (line : String) : DriverState × String :=
   match (line.trimAscii.toString.splitOn " ").filter (· ≠ "") with
-  | "ord.cs" :: args => (st, Driver.Order.changeStatusCmd args)
+  | [] => (st, "bad-op")
   | "ping" :: _ => (st, "pong")
-  | _ => (st, "bad-op")
+  | "ord.cs" :: args => (st, Driver.Order.changeStatusCmd args)
+  | cmd :: args =>
+    match cmd.splitOn "." with
+    | ["jrn", c] => let (s, o) := Driver.Journal.handle st.journal c args; ({ st with journal := s }, o)
+    | ["codec", c] => let (s, o) := Driver.Codec.handle st.codec c args; ({ st with codec := s }, o)
+    | ["cont", c] => let (s, o) := Driver.Container.handle st.cont c args; ({ st with cont := s }, o)
+    | ["sess", c] => let (s, o) := Driver.Session.handle st.sess c args; ({ st with sess := s }, o)
+    | ["sch", c] => let (s, o) := Driver.Schema.handle st.schema c args; ({ st with schema := s }, o)
+    | ["sched", c] => let (s, o) := Driver.Sched.handle st.sched c args; ({ st with sched := s }, o)
+    | ["oo", c] => let (s, o) := Driver.OrderObj.handle st.ordobj c args; ({ st with ordobj := s }, o)
+    | _ => (st, "bad-op")
 
 partial def loop (hin hout : IO.FS.Stream) (st : DriverState) : IO Unit := do
   let line ← hin.getLine
